@@ -11,7 +11,7 @@ import (
 // second or more after it; the key is the long-term key of (username, realm, generated password);
 // the TURN REST variant reports the user part as user id.
 //
-//verif:props=C17 mode=ia replay=model bounds="all durations (int64 ns, incl. zero and negative) with expiry = generation time + duration between 1824 and 2116 (negative timestamps included); all validation instants not before generation; secrets, user names and realms are opaque symbols (a user name contains no ':'); HMAC-SHA1/MD5/base64 as uninterpreted functions"
+//verif:props=C17 mode=ia replay=model bounds="all durations (int64 ns, incl. zero and negative) with expiry = generation time + duration between 1824 and 2116 (negative timestamps included); all validation instants not before generation; secrets, user names and realms are opaque symbols (the second validation with the same or another realm) (a user name contains no ':'); HMAC-SHA1/MD5/base64 as uninterpreted functions"
 func VerifHarness_C17_window_and_key() {
 	secret, realm := vStr("secret"), vStr("realm")
 	d := time.Duration(vI64())
@@ -56,7 +56,14 @@ func VerifHarness_C17_window_and_key() {
 	// the same handler instance asked again later: expiry still applies (nothing is remembered)
 	vAdvance(vI64())
 	c2 := vClock()
-	_, _, ok2 := h(&auth.RequestAttributes{Username: username, Realm: realm})
+	realm2 := realm
+	if vBool() {
+		realm2 = vStr("realm2") // one handler instance may serve several realms
+	}
+	_, key2, ok2 := h(&auth.RequestAttributes{Username: username, Realm: realm2})
+	if ok2 {
+		vAssert(vBytesEq(key2, GenerateAuthKey(username, realm2, password)), "C17.key_is_the_long_term_key_for_the_realm_of_each_request")
+	}
 	vAssertIf(c2 >= expiry+int64(time.Second), !ok2, "C17.second_validation_after_expiry_is_rejected_too")
 	vAssertIf(c2 <= expiry, ok2, "C17.second_validation_before_expiry_is_accepted_too")
 	vCover(vAnd(ok, c1 > expiry), "C17.cover_accepted_within_the_last_second")
